@@ -16,6 +16,14 @@ package transform
 //@   ensures result2 == nil ==> result1 <= len(dst) && result0 <= len(src)
 //@   modifies src[*], dst[*]
 
+//@ func (*ByteTransformSequence) MaxEncodedLen
+//@   mode int
+//@   props C13
+//@   ensures result >= srcLen                                                                            #covers-the-input
+//@   modifies nothing
+//@   loop 1 invariant requiredSize >= srcLen && 0 - 1 <= rangeindex && rangeindex < len(this.transforms)
+//@   loop 1 decreases len(this.transforms) - rangeindex
+
 //@ func (*ByteTransformSequence) Forward
 //@   mode int
 //@   trusted
@@ -254,3 +262,33 @@ package transform
 //@   requires !samearray(src, dst)
 //@   ensures result2 == nil && len(dst) > 0 ==> result0 == len(src) && result1 == len(src) && (forall k :: 0 <= k && k < len(src) ==> dst[k] == old(src[k]))      #exact-copy
 //@   modifies dst[*]
+//@ -- SBRT (MTFT / RANK / timestamp): length-preserving in both directions, no index fault
+//@ -- (all table indices are bytes), the input is never written.
+//@ func (*SBRT) Forward
+//@   mode int
+//@   props C13
+//@   requires !samearray(src, dst) && len(src) <= 1073741824
+//@   ensures result2 == nil && len(dst) > 0 ==> result0 == len(src) && result1 == len(src)               #length-preserving
+//@   ensures len(src) > 0 && len(dst) > 0 && len(dst) < len(src) + 33 ==> result2 != nil                 #short-buffer-declined
+//@   ensures len(dst) >= len(src) + len(src)/8 + 8192 ==> result2 == nil                                 #never-declines-a-large-buffer
+//@   modifies dst[*]
+//@   loop 1 invariant 0 - 1 <= rangeindex && rangeindex < 256
+//@   loop 1 decreases 256 - rangeindex
+//@   loop 2 invariant 0 <= i && i <= count && count == len(src) && len(dst) >= count
+//@   loop 2 decreases count - i
+//@   loop 3 invariant 0 <= r && r < 256 && 0 <= i && i < count && count == len(src) && len(dst) >= count
+//@   loop 3 decreases r
+
+//@ func (*SBRT) Inverse
+//@   mode int
+//@   props C13 C03
+//@   requires !samearray(src, dst)
+//@   ensures result2 == nil && len(dst) > 0 ==> result0 == len(src) && result1 == len(src)               #length-preserving
+//@   ensures len(src) > 0 && len(dst) > 0 ==> (result2 == nil <==> len(dst) >= len(src))                 #declines-only-a-short-buffer
+//@   modifies dst[*]
+//@   loop 1 invariant 0 - 1 <= rangeindex && rangeindex < 256
+//@   loop 1 decreases 256 - rangeindex
+//@   loop 2 invariant 0 <= i && i <= count && count == len(src) && len(dst) >= count
+//@   loop 2 decreases count - i
+//@   loop 3 invariant 0 <= r && r < 256 && 0 <= i && i < count && count == len(src) && len(dst) >= count
+//@   loop 3 decreases r
